@@ -320,22 +320,25 @@ Definition subset_columns (m : comp) (chosen : list nat) : res comp :=
 Definition chunk_ok (n c : nat) : bool := (0 <? c) && (c <=? n).
 
 (* anndata_utils.amalgamate_csr_to_x on the pieces written by _amalgamate_h5ad.
-   Each piece must hold at least one index (`src['indices'][()].max()`), and the
-   datasets are created with chunks=min(n_valid, 20000). *)
+   A piece without any index is skipped by the scan for the largest index, and the
+   datasets are created with chunks=min(n_valid, 20000), or chunks=None when
+   n_valid = 0: pieces (or a whole result) without stored values are joined like
+   any other. *)
 Definition amalgamate_csr (pieces : list comp) (n_rows : nat) : res comp :=
-  if existsb (fun p => length (idx p) =? 0) pieces then Err EValue else
   bind (merge_csr pieces) (fun mg =>
-  if length (dat mg) =? 0 then Err EValue else
   if length (ptr mg) =? S n_rows then Ok mg else Err EReject).
 
 (* amalgamate_dense_to_x *)
 Definition amalgamate_dense (pieces : list dense) : dense := concat pieces.
 
-(* _copy_layer_to_x_sparse on one of the three arrays: chunked copy (or in one go) *)
+(* _copy_layer_to_x_sparse on one of the three arrays: chunked copy (or in one go).
+   A source chunk shape beyond the extent (anndata chunks an empty array by 1024) is
+   dropped: chunks = None, copied in one go. *)
 Definition copy_array {A} (l : list A) (chunks : option nat) : res (list A) :=
   match chunks with
   | None => Ok l
-  | Some c => if chunk_ok (length l) c
+  | Some c => if length l <? c then Ok l else
+              if chunk_ok (length l) c
               then Ok (concat (map (fun ch => slice l (fst ch) (snd ch)) (range_chunks (length l) c)))
               else Err EValue
   end.
